@@ -14,6 +14,8 @@ def loo_counts_total(counts: np.ndarray, k: int | None) -> np.ndarray:
     c = np.asarray(counts, dtype=float)
     if k is not None:
         c = np.delete(np.delete(c, k, axis=1), k, axis=2)
+    if c.shape[1] > 32:  # hundreds of patches: same explicit deletion, summed by numpy
+        return c.reshape(c.shape[0], -1).sum(axis=1)
     out = np.zeros(c.shape[0])
     for b in range(c.shape[0]):
         tot = 0.0
@@ -33,6 +35,11 @@ def loo_norm(w1: np.ndarray, w2: np.ndarray, auto: bool, k: int | None) -> np.nd
         w1 = np.delete(w1, k, axis=1)
         w2 = np.delete(w2, k, axis=1)
     nb, npatch = w1.shape
+    if npatch > 32:
+        prod = np.einsum("bi,bj->bij", w1, w2)
+        if auto:
+            prod = np.triu(prod, 1) + 0.5 * prod * np.eye(npatch)[None, :, :]
+        return prod.reshape(nb, -1).sum(axis=1)
     out = np.zeros(nb)
     for b in range(nb):
         tot = 0.0
